@@ -8,6 +8,8 @@ type lexer struct {
 	tokens []token
 	result interface{}
 	err    error
+	// the literal the parser reduced last was a bare word, not a quoted string
+	bareLiteral bool
 }
 
 func (l *lexer) Lex(lval *yySymType) int {
